@@ -17,7 +17,7 @@ RULE = (
     "class) equals the outcome of the same operation asked first on a database freshly rebuilt from the accepted "
     "registrations; the full registry snapshot (all public getters, both conversion functions sampled) is identical "
     "before and after every read-only or failing step. Non-trivial = a query preceded by a failing lookup of the same "
-    "key, by an object-level GetValidUnits, or by a later registration; key = (query kind, preceding event kind)."
+    "key, by an object-level GetValidUnits, or by a later registration; key = (database kind, query kind, preceding event kind, category/unit asked)."
 )
 ASSUMPTIONS = ["quantities and value objects obtained before a registration keep what they captured (documented design); only fresh queries are compared"]
 BUDGET_S = {"quick": 150, "thorough": 1500}
@@ -239,7 +239,7 @@ class Machine:
         pre = self.history.setdefault(key, set())
         if pre or any(e[0] == "registration" for e in self.events):
             for p in sorted(pre | ({"later_registration"} if any(e[0] == "registration" for e in self.events) else set())):
-                ctx.nontrivial((kind, p))
+                ctx.nontrivial((self.base_kind, kind, p) + tuple(q[1:3]), {"query": q, "preceded_by": p, "outcome": got} if len(ctx.samples) < 8 else None)
         if got[0] == "raises":
             pre.add("failed_lookup")
             self.events.append(("failed_lookup", kind))
